@@ -354,3 +354,870 @@ Proof.
         repeat split; cbn; assumption.
     + inversion H; subst. split; [apply same_ext_refl | apply same_root_refl].
 Qed.
+
+(* ------------------------------------------------------------------ internal data: invariant *)
+
+Definition content (n : string) (st : state) : list row :=
+  concat (partitions n (s_log st)) ++ cache_of n (s_icache st).
+
+(* descriptor nodes vs. the plain uid -> name association dm and the declared names *)
+Definition InvD (dm : list (string * string)) (names : list string) (st : state) : Prop :=
+  (forall u n, lookup u dm = Some n -> lookup u (s_desc_nodes st) = Some n)
+  /\ (forall n, In n names -> lookup n (s_desc_nodes st) = Some n)
+  /\ (forall k, lookup k (s_desc_nodes st) <> None -> lookup k dm <> None \/ In k names)
+  /\ (forall u n, lookup u dm = Some n -> In n names).
+
+Definition InvC (names : list string) (st : state) : Prop :=
+  NoDup (map fst (s_icache st)) /\ (forall n, lookup n (s_icache st) <> None -> In n names).
+
+Definition InvT (st : state) : Prop :=
+  s_tables st = created_tables (s_log st)
+  /\ NoDup (s_tables st)
+  /\ (forall n, In n (s_tables st) <-> partitions n (s_log st) <> [])
+  /\ (forall n p, In p (partitions n (s_log st)) -> p <> []).
+
+Lemma InvT_same_int st st' : InvT st -> same_int st st' ->
+  InvT st' /\ forall n, partitions n (s_log st') = partitions n (s_log st).
+Proof.
+  intros (T1 & T2 & T3 & T4) (_ & _ & E3 & (ext & EL & EN)).
+  assert (P : forall n, partitions n (s_log st') = partitions n (s_log st)).
+  { intros n. rewrite EL, partitions_app, (partitions_neutral _ _ EN), app_nil_r. reflexivity. }
+  split; [|exact P]. unfold InvT. rewrite E3. repeat split.
+  - rewrite EL, created_tables_app, (created_tables_neutral _ EN), app_nil_r. exact T1.
+  - exact T2.
+  - rewrite P. apply T3.
+  - rewrite P. apply T3.
+  - intros n p. rewrite P. apply T4.
+Qed.
+
+Lemma content_same_int st st' : same_int st st' ->
+  (forall n, partitions n (s_log st') = partitions n (s_log st)) -> forall n, content n st' = content n st.
+Proof. intros (_ & E2 & _) P n. unfold content. rewrite P, E2. reflexivity. Qed.
+
+Lemma cache_of_set n k v c : cache_of n (dict_set k v c) = if seqb n k then v else cache_of n c.
+Proof. unfold cache_of. rewrite lookup_set. destruct (seqb n k); reflexivity. Qed.
+
+Lemma s_log_emit e st : s_log (emit e st) = s_log st ++ [e].
+Proof. reflexivity. Qed.
+Lemma partitions_one n e : partitions n [e] = match e with LAppend n' rows => if seqb n n' then [rows] else [] | _ => [] end.
+Proof. cbn. destruct e; try reflexivity. destruct (seqb n name); reflexivity. Qed.
+Lemma created_tables_one e : created_tables [e] = match e with LCreateTable n _ _ _ => [n] | _ => [] end.
+Proof. cbn. destruct e; reflexivity. Qed.
+
+Arguments partitions : simpl never.
+Arguments created_tables : simpl never.
+
+Lemma write_internal_T st rows node : rows <> [] -> InvT st ->
+  InvT (write_internal st rows node)
+  /\ forall n, partitions n (s_log (write_internal st rows node))
+               = partitions n (s_log st) ++ (if seqb n node then [rows] else []).
+Proof.
+  intros NE (T1 & T2 & T3 & T4). unfold write_internal.
+  destruct (smem node (s_tables st)) eqn:M.
+  - assert (P : forall n, partitions n (s_log (emit (LAppend node rows) st))
+                         = partitions n (s_log st) ++ (if seqb n node then [rows] else [])).
+    { intros n. rewrite s_log_emit, partitions_app, partitions_one. reflexivity. }
+    split; [|exact P]. unfold InvT. repeat split.
+    + rewrite s_log_emit, created_tables_app, created_tables_one, app_nil_r. exact T1.
+    + exact T2.
+    + intros I. rewrite P. cbn in I. apply T3 in I. destruct (partitions n (s_log st)); [congruence | discriminate].
+    + rewrite P. cbn. intros I. destruct (seqb n node) eqn:E; sb.
+      * apply smem_in. exact M.
+      * rewrite app_nil_r in I. apply T3. exact I.
+    + intros n p. rewrite P, in_app_iff. intros [I|I]; [eapply T4; eauto|].
+      destruct (seqb n node); cbn in I; [destruct I as [<-|[]]; exact NE | tauto].
+  - match goal with |- InvT ?s /\ _ => set (st2 := s) end.
+    assert (P : forall n, partitions n (s_log st2)
+                         = partitions n (s_log st) ++ (if seqb n node then [rows] else [])).
+    { intros n. subst st2. rewrite !s_log_emit, !partitions_app, !partitions_one, app_nil_r. reflexivity. }
+    split; [|exact P]. unfold InvT. repeat split.
+    + subst st2. rewrite !s_log_emit, !created_tables_app, !created_tables_one, app_nil_r. cbn. rewrite T1. reflexivity.
+    + subst st2. cbn. apply NoDup_snoc; [exact T2 | apply smem_notin; exact M].
+    + rewrite P. subst st2. cbn. rewrite in_app_iff. cbn. intros [I|[<-|[]]].
+      * apply T3 in I. destruct (partitions n (s_log st)); [congruence | discriminate].
+      * rewrite seqb_refl. destruct (partitions node (s_log st)); discriminate.
+    + rewrite P. subst st2. cbn. rewrite in_app_iff. cbn. intros I. destruct (seqb n node) eqn:E; sb; [auto|].
+      rewrite app_nil_r in I. left. apply T3. exact I.
+    + intros n p. rewrite P, in_app_iff. intros [I|I]; [eapply T4; eauto|].
+      destruct (seqb n node); cbn in I; [destruct I as [<-|[]]; exact NE | tauto].
+Qed.
+
+Lemma write_internal_fields st rows node :
+  s_desc_nodes (write_internal st rows node) = s_desc_nodes st
+  /\ s_icache (write_internal st rows node) = s_icache st.
+Proof. unfold write_internal. destruct (smem node (s_tables st)); split; reflexivity. Qed.
+
+Local Opaque write_internal.
+
+Definition sel (dm : list (string * string)) (n : string) (e : event) : bool :=
+  match lookup (ev_desc e) dm with Some n' => seqb n n' | None => false end.
+
+Lemma InvT_set_icache st x : InvT st -> InvT (set_icache st x).
+Proof. intros H. exact H. Qed.
+
+Lemma h_event_int bs st e st' dm names :
+  InvD dm names st -> InvC names st -> InvT st -> ~ In (ev_desc e) names ->
+  h_event bs st e = (st', None) ->
+  InvD dm names st' /\ InvC names st' /\ InvT st'
+  /\ forall n, content n st' = content n st ++ map event_row (filter (sel dm n) [e]).
+Proof.
+  intros (R1 & R2 & R3 & R4) (C1 & C2) T NN. unfold h_event.
+  destruct (lookup (ev_desc e) (s_desc_nodes st)) as [node|] eqn:L; [|discriminate].
+  assert (LD : lookup (ev_desc e) dm = Some node).
+  { destruct (R3 (ev_desc e)) as [H|H]; [congruence| |tauto].
+    destruct (lookup (ev_desc e) dm) as [n0|] eqn:L0; [|congruence].
+    apply R1 in L0. congruence. }
+  assert (NI : In node names) by (eapply R4; eauto).
+  set (cache := cache_of node (s_icache st) ++ [event_row e]).
+  assert (CN : cache <> []) by (subst cache; destruct (cache_of node (s_icache st)); discriminate).
+  assert (C' : forall x, NoDup (map fst (dict_set node x (s_icache st)))
+                         /\ (forall n, lookup n (dict_set node x (s_icache st)) <> None -> In n names)).
+  { intros x. split; [apply dict_set_nodup; exact C1|]. intros n. rewrite lookup_set.
+    destruct (seqb n node) eqn:E; sb; auto. }
+  destruct (Z.of_nat (length cache) >=? bs)%Z; intros [= <-].
+  - destruct (write_internal_T st cache node CN T) as [T' P].
+    destruct (write_internal_fields st cache node) as [F1 F2].
+    split; [|split; [|split]].
+    + unfold InvD. cbn. rewrite F1. auto.
+    + unfold InvC. cbn. apply C'.
+    + apply T'.
+    + intros n. unfold content. cbn. rewrite P, cache_of_set. unfold sel. cbn. rewrite LD.
+      destruct (seqb n node) eqn:E; sb; cbn.
+      * rewrite concat_app. cbn. subst cache. rewrite !app_nil_r, <- app_assoc. reflexivity.
+      * rewrite !app_nil_r. reflexivity.
+  - split; [|split; [|split]].
+    + unfold InvD. cbn. auto.
+    + unfold InvC. cbn. apply C'.
+    + apply T.
+    + intros n. unfold content. cbn. rewrite cache_of_set. unfold sel. cbn. rewrite LD.
+      destruct (seqb n node) eqn:E; sb; cbn.
+      * subst cache. rewrite app_assoc. reflexivity.
+      * rewrite app_nil_r. reflexivity.
+Qed.
+
+Lemma h_events_int bs es : forall st st' dm names,
+  InvD dm names st -> InvC names st -> InvT st -> (forall e, In e es -> ~ In (ev_desc e) names) ->
+  h_events bs st es = (st', None) ->
+  InvD dm names st' /\ InvC names st' /\ InvT st'
+  /\ forall n, content n st' = content n st ++ map event_row (filter (sel dm n) es).
+Proof.
+  induction es as [|e es IH]; cbn [h_events]; intros st st' dm names D C T NN H.
+  - inversion H; subst. repeat split; try apply D; try apply C; try apply T.
+    intros n. cbn. rewrite app_nil_r. reflexivity.
+  - destruct (h_event bs st e) as [st1 [x|]] eqn:E; [discriminate|].
+    eapply h_event_int in E as (D1 & C1 & T1 & P1); eauto; [|apply NN; left; reflexivity].
+    eapply IH in H as (D2 & C2 & T2 & P2); eauto; [|intros; apply NN; right; assumption].
+    repeat split; try apply D2; try apply C2; try apply T2.
+    intros n. rewrite P2, P1, <- app_assoc, <- map_app. f_equal. f_equal.
+    change (e :: es) with ([e] ++ es). rewrite filter_app. reflexivity.
+Qed.
+
+Lemma InvD_fields dm names st st' : s_desc_nodes st' = s_desc_nodes st -> InvD dm names st -> InvD dm names st'.
+Proof. unfold InvD. intros ->. tauto. Qed.
+Lemma InvC_fields names st st' : s_icache st' = s_icache st -> InvC names st -> InvC names st'.
+Proof. unfold InvC. intros ->. tauto. Qed.
+
+Lemma same_int_inv dm names st st' : same_int st st' -> InvD dm names st -> InvC names st -> InvT st ->
+  InvD dm names st' /\ InvC names st' /\ InvT st' /\ forall n, content n st' = content n st.
+Proof.
+  intros S D C T. destruct (InvT_same_int _ _ T S) as [T' P].
+  destruct S as (E1 & E2 & E3 & E4).
+  repeat split; try apply T'.
+  - eapply InvD_fields; eauto.
+  - eapply InvD_fields; eauto.
+  - eapply InvD_fields; eauto.
+  - eapply InvD_fields; eauto.
+  - eapply InvC_fields; eauto.
+  - eapply InvC_fields; eauto.
+  - intros n. unfold content. rewrite P, E2. reflexivity.
+Qed.
+
+Lemma InvC_weaken names names' st : (forall n, In n names -> In n names') -> InvC names st -> InvC names' st.
+Proof. intros H [C1 C2]. split; auto. Qed.
+
+Lemma h_descriptor_int st d st' dm names :
+  InvD dm names st -> InvC names st -> InvT st ->
+  ~ In (d_uid d) (d_name d :: names) -> lookup (d_name d) dm = None ->
+  h_descriptor st d = (st', None) ->
+  InvD (dict_set (d_uid d) (d_name d) dm) (d_name d :: names) st' /\ InvC (d_name d :: names) st' /\ InvT st'
+  /\ forall n, content n st' = content n st.
+Proof.
+  intros (R1 & R2 & R3 & R4) C T NU NK. unfold h_descriptor.
+  destruct (s_root st) as [rk|]; [|discriminate]. cbn [s_desc_nodes set_data_keys].
+  (* whichever branch: the node is the one named d_name d *)
+  set (stn := match lookup (d_name d) (s_desc_nodes st) with Some node => _ | None => _ end).
+  assert (SN : snd stn = d_name d /\ same_int st (fst stn)).
+  { subst stn. destruct (lookup (d_name d) (s_desc_nodes st)) as [node|] eqn:L; cbn [fst snd].
+    - split; [|repeat split; ext_tac].
+      destruct (R3 (d_name d)) as [H|H]; [congruence | congruence |]. apply R2 in H. congruence.
+    - split; [reflexivity | repeat split; ext_tac]. }
+  destruct SN as [SN S]. intros [= <-]. rewrite SN.
+  destruct (InvT_same_int _ _ T S) as [T' P].
+  assert (ED : s_desc_nodes (fst stn) = s_desc_nodes st) by apply S.
+  assert (EI : s_icache (fst stn) = s_icache st) by apply S.
+  assert (U1 : d_uid d <> d_name d) by (intros E; apply NU; left; auto).
+  assert (U2 : ~ In (d_uid d) names) by (intros E; apply NU; right; auto).
+  split; [|split; [|split]].
+  - unfold InvD. cbn [s_desc_nodes set_desc_nodes]. rewrite ED. repeat split.
+    + intros u n. rewrite !lookup_set. destruct (seqb u (d_uid d)) eqn:E; sb.
+      * intros [= <-]. apply seqb_neq in U1. rewrite U1. reflexivity.
+      * intros L. destruct (seqb u (d_name d)) eqn:E2; sb; [congruence|]. apply R1. exact L.
+    + intros n [<-|I]; rewrite !lookup_set.
+      * rewrite seqb_refl. reflexivity.
+      * destruct (seqb n (d_name d)) eqn:E1; sb; [reflexivity|].
+        destruct (seqb n (d_uid d)) eqn:E2; sb; [tauto|]. apply R2. exact I.
+    + intros k. rewrite !lookup_set. destruct (seqb k (d_name d)) eqn:E1; sb; [intros _; right; left; reflexivity|].
+      destruct (seqb k (d_uid d)) eqn:E2; sb; [intros _; left; congruence|].
+      intros L. destruct (R3 k L) as [H|H]; [left | right; right]; auto.
+    + intros u n. rewrite lookup_set. destruct (seqb u (d_uid d)); [intros [= <-]; left; reflexivity|].
+      intros L. right. eapply R4; eauto.
+  - eapply InvC_weaken; [intros n I; right; exact I|]. unfold InvC in *. cbn [s_icache set_desc_nodes]. rewrite EI. exact C.
+  - exact T'.
+  - intros n. unfold content. cbn [s_log s_icache set_desc_nodes]. rewrite P, EI. reflexivity.
+Qed.
+
+Lemma flush_internal_int l : forall st st' dm names,
+  InvD dm names st -> InvC names st -> InvT st ->
+  NoDup (map fst l) -> (forall k rows, In (k, rows) l -> lookup k (s_icache st) = Some rows) ->
+  flush_internal st l = (st', None) ->
+  InvD dm names st' /\ InvC names st' /\ InvT st'
+  /\ (forall n, content n st' = content n st)
+  /\ (forall k, In k (map fst l) -> cache_of k (s_icache st') = [])
+  /\ (forall k, ~ In k (map fst l) -> lookup k (s_icache st') = lookup k (s_icache st)).
+Proof.
+  induction l as [|[k rows] l IH]; cbn [flush_internal]; intros st st' dm names D C T ND HL H.
+  - inversion H; subst. repeat split; try apply D; try apply C; try apply T; cbn; tauto.
+  - inversion ND as [|? ? NI ND']; subst.
+    assert (HL' : forall k0 rows0, In (k0, rows0) l -> k0 <> k).
+    { intros k0 rows0 I E. subst. apply NI. apply in_map_iff. exists (k, rows0). auto. }
+    destruct rows as [|r0 rows].
+    + eapply IH in H as (D' & C' & T' & P & Q1 & Q2); eauto; [|intros; apply HL; right; assumption].
+      repeat split; try apply D'; try apply C'; try apply T'; auto.
+      * intros k0 [<-|I]; [|auto]. cbn [fst]. unfold cache_of. rewrite Q2 by exact NI.
+        rewrite (HL k []) by (left; reflexivity). reflexivity.
+      * intros k0 NI0. apply Q2. cbn in NI0. tauto.
+    + assert (Lk : lookup k (s_icache st) = Some (r0 :: rows)) by (apply HL; left; reflexivity).
+      assert (Ik : In k names) by (apply C; congruence).
+      destruct D as (R1 & R2 & R3 & R4). rewrite (R2 k Ik) in H.
+      destruct (write_internal_T st (r0 :: rows) k ltac:(discriminate) T) as [T1 P1].
+      destruct (write_internal_fields st (r0 :: rows) k) as [F1 F2].
+      set (st1 := set_icache (write_internal st (r0 :: rows) k) (dict_set k [] (s_icache st))) in *.
+      assert (D1 : InvD dm names st1) by (unfold InvD; subst st1; cbn; rewrite F1; auto).
+      assert (C1 : InvC names st1).
+      { destruct C as [Ca Cb]. split; subst st1; cbn; [apply dict_set_nodup; exact Ca|].
+        intros n. rewrite lookup_set. destruct (seqb n k) eqn:E; sb; auto. }
+      assert (HL1 : forall k0 rows0, In (k0, rows0) l -> lookup k0 (s_icache st1) = Some rows0).
+      { intros k0 rows0 I. subst st1. cbn. rewrite lookup_set_neq by (eapply HL'; eauto). apply HL. right. exact I. }
+      eapply IH in H as (D' & C' & T' & P & Q1 & Q2); eauto.
+      repeat split; try apply D'; try apply C'; try apply T'.
+      * intros n. rewrite P. unfold content. subst st1. cbn [s_log s_icache set_icache]. rewrite P1, cache_of_set.
+        destruct (seqb n k) eqn:E; sb.
+        -- unfold cache_of. rewrite Lk, concat_app. cbn. rewrite !app_nil_r. reflexivity.
+        -- rewrite app_nil_r. reflexivity.
+      * intros k0 [<-|I]; [|auto]. cbn [fst]. unfold cache_of. rewrite Q2 by exact NI.
+        subst st1. cbn. rewrite lookup_set_eq. reflexivity.
+      * intros k0 NI0. cbn in NI0. rewrite Q2 by tauto. subst st1. cbn. apply lookup_set_neq. intros ->. tauto.
+Qed.
+
+(* ------------------------------------------------------------------ internal data: the run *)
+
+Definition Hns (dm : list (string * string)) (names : list string) (docs : list doc) : Prop :=
+  forall r n, (lookup r dm <> None \/ In r (desc_refs docs)) -> (In n names \/ In n (desc_names docs)) -> r <> n.
+
+Lemma Hns_tail dm names d docs : Hns dm names (d :: docs) -> Hns dm names docs.
+Proof.
+  intros H r n A B. apply H.
+  - destruct A as [A|A]; [left; exact A | right; unfold desc_refs; cbn [flat_map]; apply in_or_app; right; exact A].
+  - destruct B as [B|B]; [left; exact B | right; unfold desc_names; cbn [flat_map]; apply in_or_app; right; exact B].
+Qed.
+
+Lemma Hns_desc dm names x docs : Hns dm names (DDescriptor x :: docs) ->
+  Hns (dict_set (d_uid x) (d_name x) dm) (d_name x :: names) docs
+  /\ ~ In (d_uid x) (d_name x :: names) /\ lookup (d_name x) dm = None.
+Proof.
+  intros N.
+  assert (HU : In (d_uid x) (desc_refs (DDescriptor x :: docs))) by (unfold desc_refs; cbn; left; reflexivity).
+  assert (HN : In (d_name x) (desc_names (DDescriptor x :: docs))) by (unfold desc_names; cbn; left; reflexivity).
+  split; [|split].
+  - intros r n A B. apply N.
+    + destruct A as [A|A].
+      * rewrite lookup_set in A. destruct (seqb r (d_uid x)) eqn:E; sb; [right; exact HU | left; exact A].
+      * right. unfold desc_refs. cbn. right. exact A.
+    + destruct B as [[<-|B]|B]; [right; exact HN | left; exact B | right; unfold desc_names; cbn; right; exact B].
+  - intros [E|I].
+    + eapply N; [right; exact HU | right; exact HN | congruence].
+    + eapply N; [right; exact HU | left; exact I | reflexivity].
+  - destruct (lookup (d_name x) dm) eqn:L; [|reflexivity]. exfalso.
+    eapply N; [left; rewrite L; discriminate | right; exact HN | reflexivity].
+Qed.
+
+Lemma Hns_events dm names d docs e : Hns dm names (d :: docs) ->
+  (match d with DDescriptor _ => False | _ => True end) -> In e (doc_events d) -> ~ In (ev_desc e) names.
+Proof.
+  intros N ND I J. eapply N; [right | left; exact J | reflexivity].
+  unfold desc_refs. cbn [flat_map]. apply in_or_app. left.
+  destruct d; try tauto; apply in_map; exact I.
+Qed.
+
+Lemma run_body_int bs : forall docs st st' dm names,
+  InvD dm names st -> InvC names st -> InvT st -> forallb is_body docs = true -> Hns dm names docs ->
+  run_from bs st docs = (st', None) ->
+  exists dm' names', InvD dm' names' st' /\ InvC names' st' /\ InvT st'
+                     /\ forall n, content n st' = content n st ++ spec_rows dm docs n.
+Proof.
+  induction docs as [|d docs IH]; cbn [run_from]; intros st st' dm names D C T B N H.
+  - inversion H; subst. exists dm, names. repeat split; try apply D; try apply C; try apply T.
+    intros n. cbn. rewrite app_nil_r. reflexivity.
+  - cbn [forallb] in B. apply andb_true_iff in B as [B1 B2].
+    destruct (handle bs st d) as [st1 [x|]] eqn:E; [discriminate|].
+    assert (N' := Hns_tail _ _ _ _ N).
+    destruct d as [s|x|e|es|x|x|m]; cbn [handle is_body] in *; try discriminate.
+    + (* descriptor *)
+      destruct (Hns_desc _ _ _ _ N) as (N1 & N2 & N3).
+      eapply h_descriptor_int in E as (D1 & C1 & T1 & P1); eauto.
+      eapply IH in H as (dm' & names' & D2 & C2 & T2 & P2); eauto.
+      exists dm', names'. repeat split; try apply D2; try apply C2; try apply T2.
+      intros n. rewrite P2, P1. reflexivity.
+    + (* event *)
+      eapply h_event_int in E as (D1 & C1 & T1 & P1); eauto;
+        [|eapply Hns_events; [exact N | exact I | left; reflexivity]].
+      eapply IH in H as (dm' & names' & D2 & C2 & T2 & P2); eauto.
+      exists dm', names'. repeat split; try apply D2; try apply C2; try apply T2.
+      intros n. rewrite P2, P1, <- app_assoc. reflexivity.
+    + (* event page *)
+      eapply h_events_int in E as (D1 & C1 & T1 & P1); eauto;
+        [|intros e I; eapply Hns_events; [exact N | exact Logic.I | exact I]].
+      eapply IH in H as (dm' & names' & D2 & C2 & T2 & P2); eauto.
+      exists dm', names'. repeat split; try apply D2; try apply C2; try apply T2.
+      intros n. rewrite P2, P1, <- app_assoc. reflexivity.
+    + (* stream resource *)
+      apply h_sres_frame in E as (S & _).
+      destruct (same_int_inv _ _ _ _ S D C T) as (D1 & C1 & T1 & P1).
+      eapply IH in H as (dm' & names' & D2 & C2 & T2 & P2); eauto.
+      exists dm', names'. repeat split; try apply D2; try apply C2; try apply T2.
+      intros n. rewrite P2, P1. reflexivity.
+    + (* stream datum *)
+      apply h_sdatum_frame in E as (S & _).
+      destruct (same_int_inv _ _ _ _ S D C T) as (D1 & C1 & T1 & P1).
+      eapply IH in H as (dm' & names' & D2 & C2 & T2 & P2); eauto.
+      exists dm', names'. repeat split; try apply D2; try apply C2; try apply T2.
+      intros n. rewrite P2, P1. reflexivity.
+Qed.
+
+Lemma run_from_app bs a : forall st b,
+  run_from bs st (a ++ b) = match run_from bs st a with (st', None) => run_from bs st' b | bad => bad end.
+Proof.
+  induction a as [|d a IH]; cbn; intros st b; [reflexivity|].
+  destruct (handle bs st d) as [st1 [x|]]; [reflexivity | apply IH].
+Qed.
+
+Lemma spec_rows_app_stop n m : forall body dm, spec_rows dm (body ++ [DStop m]) n = spec_rows dm body n.
+Proof.
+  induction body as [|d body IH]; intros dm; cbn; [reflexivity|].
+  destruct d; rewrite IH; reflexivity.
+Qed.
+
+Lemma run_decompose bs s body m st :
+  run bs (DStart s :: body ++ [DStop m]) = (st, None) ->
+  exists st1, run_from bs (fst (h_start init s)) body = (st1, None) /\ h_stop st1 m = (st, None).
+Proof.
+  unfold run. cbn [run_from handle]. unfold h_start at 1. cbn [fst]. rewrite run_from_app.
+  match goal with |- context[run_from bs ?s0 body] => destruct (run_from bs s0 body) as [st1 [x|]] eqn:E end;
+    [discriminate|].
+  cbn [run_from handle]. intros H. exists st1. split; [exact E|].
+  destruct (h_stop st1 m) as [st2 [x|]]; [discriminate | exact H].
+Qed.
+
+Definition stop_entry (st3 : state) (m : md) : entry :=
+  LUpdateRoot (fst (s_rootmd st3)) (match snd (s_rootmd st3) with Some o => o | None => m end).
+
+Lemma h_stop_ok st m st' : h_stop st m = (st', None) ->
+  exists st2 st3, flush_internal st (s_icache st) = (st2, None)
+                  /\ flush_external st2 (s_ecache st2) = (st3, None)
+                  /\ st' = emit (stop_entry st3 m)
+                                (set_rootmd st3 (fst (s_rootmd st3),
+                                                 Some (match snd (s_rootmd st3) with Some o => o | None => m end))).
+Proof.
+  unfold h_stop. destruct (s_root st); [|discriminate].
+  destruct (flush_internal st (s_icache st)) as [st2 [x|]] eqn:E1; [discriminate|].
+  destruct (flush_external st2 (s_ecache st2)) as [st3 [x|]] eqn:E2; [discriminate|].
+  intros [= <-]. exists st2, st3. split; [reflexivity | split; [exact E2 | reflexivity]].
+Qed.
+
+Lemma InvT_init_start s : InvT (fst (h_start init s)).
+Proof.
+  unfold InvT. cbn. split; [reflexivity | split; [constructor | split]].
+  - intros n. split; [intros [] | intros H; exfalso; apply H; reflexivity].
+  - intros n p [].
+Qed.
+
+Lemma internal_tables_thm bs docs st :
+  run bs docs = (st, None) -> is_run docs -> ns_disjoint docs ->
+  (forall n, concat (partitions n (s_log st)) = spec_rows [] docs n)
+  /\ (forall n p, In p (partitions n (s_log st)) -> p <> [])
+  /\ (forall n, cache_of n (s_icache st) = [])
+  /\ NoDup (created_tables (s_log st))
+  /\ (forall n, In n (created_tables (s_log st)) <-> partitions n (s_log st) <> []).
+Proof.
+  intros R (s & body & m & -> & B) NS.
+  apply run_decompose in R as (st1 & R1 & R2).
+  set (st0 := fst (h_start init s)) in *.
+  assert (D0 : InvD [] [] st0) by (unfold InvD; cbn; repeat split; intros; try discriminate; tauto).
+  assert (C0 : InvC [] st0) by (unfold InvC; cbn; split; [constructor | intros n H; apply H; reflexivity]).
+  assert (T0 := InvT_init_start s). fold st0 in T0.
+  assert (N0 : Hns [] [] body).
+  { intros r n [A|A] [Bn|Bn]; try (cbn in A; congruence); try (cbn in Bn; tauto).
+    apply NS.
+    - unfold desc_refs. cbn [flat_map doc_events map app]. rewrite flat_map_app. apply in_or_app. left. exact A.
+    - unfold desc_names. cbn [flat_map app]. rewrite flat_map_app. apply in_or_app. left. exact Bn. }
+  destruct (run_body_int bs body st0 st1 [] [] D0 C0 T0 B N0 R1) as (dm' & names' & D1 & C1 & T1 & P1).
+  apply h_stop_ok in R2 as (st2 & st3 & F1 & F2 & ->).
+  assert (HL : forall k rows, In (k, rows) (s_icache st1) -> lookup k (s_icache st1) = Some rows)
+    by (intros; apply in_lookup; [apply C1 | assumption]).
+  destruct (flush_internal_int _ _ _ _ _ D1 C1 T1 (proj1 C1) HL F1) as (D2 & C2 & T2 & P2 & Q1 & Q2).
+  apply flush_external_frame in F2 as (S3 & _ & _).
+  destruct (same_int_inv _ _ _ _ S3 D2 C2 T2) as (D3 & C3 & T3 & P3).
+  match goal with |- context[emit ?e ?s] => set (stf := emit e s) end.
+  assert (S4 : same_int st3 stf) by (subst stf; repeat split; ext_tac).
+  destruct (same_int_inv _ _ _ _ S4 D3 C3 T3) as (D4 & C4 & T4 & P4).
+  assert (CE : forall n, cache_of n (s_icache stf) = []).
+  { intros n. destruct S4 as (_ & -> & _). destruct S3 as (_ & -> & _).
+    destruct (lookup n (s_icache st1)) eqn:L.
+    - apply Q1. apply lookup_in in L. apply in_map_iff. exists (n, l). auto.
+    - unfold cache_of. rewrite Q2, L; [reflexivity|]. apply lookup_none_notin. exact L. }
+  destruct T4 as (Ta & Tb & Tc & Td).
+  split; [|split; [|split; [|split]]]; auto.
+  - intros n. cbn [spec_rows doc_events map filter app]. rewrite spec_rows_app_stop.
+    specialize (P4 n). unfold content in P4 at 1. rewrite CE, app_nil_r in P4.
+    rewrite P4, P3, P2, P1. unfold content. cbn. reflexivity.
+  - rewrite <- Ta. exact Tb.
+  - intros n. rewrite <- Ta. apply Tc.
+Qed.
+
+(* ------------------------------------------------------------------ metadata *)
+
+Lemma handle_body_root bs st d st' r : is_body d = true -> handle bs st d = (st', r) -> same_root st st'.
+Proof.
+  destruct d; cbn; try discriminate; intros _ H.
+  - apply h_descriptor_frame in H. tauto.
+  - apply h_event_frame in H. tauto.
+  - apply h_events_frame in H. tauto.
+  - apply h_sres_frame in H. tauto.
+  - apply h_sdatum_frame in H. tauto.
+Qed.
+
+Lemma run_body_root bs : forall docs st st' r,
+  forallb is_body docs = true -> run_from bs st docs = (st', r) -> same_root st st'.
+Proof.
+  induction docs as [|d docs IH]; cbn; intros st st' r B H.
+  - inversion H; subst. apply same_root_refl.
+  - apply andb_true_iff in B as [B1 B2].
+    destruct (handle bs st d) as [st1 [x|]] eqn:E; apply handle_body_root in E; try assumption.
+    + inversion H; subst. exact E.
+    + eapply same_root_trans; [exact E | eapply IH; eauto].
+Qed.
+
+Definition start_md (s : startdoc) : md := trunc_md (("uid"%string, VS (st_uid s)) :: st_md s).
+
+Lemma metadata_thm bs s body m st :
+  run bs (DStart s :: body ++ [DStop m]) = (st, None) -> forallb is_body body = true ->
+  exists mid, s_log st = LCreateRoot (st_uid s) (start_md s) (st_tags s) :: mid ++ [LUpdateRoot (start_md s) m]
+              /\ root_updates mid = [] /\ existsb is_create_root mid = false.
+Proof.
+  intros R B. apply run_decompose in R as (st1 & R1 & R2).
+  apply run_body_root in R1; [|exact B].
+  apply h_stop_ok in R2 as (st2 & st3 & F1 & F2 & ->).
+  apply flush_internal_frame in F1 as [_ F1]. apply flush_external_frame in F2 as (_ & F2 & _).
+  assert (S : same_root (fst (h_start init s)) st3) by (eapply same_root_trans; [|eapply same_root_trans]; eauto).
+  destruct S as (S1 & S2 & (ext & EL & EN)).
+  exists ext. unfold stop_entry. rewrite s_log_emit. cbn [s_log set_rootmd]. rewrite S2, EL. cbn.
+  split; [reflexivity|]. split; [apply root_updates_neutral | apply create_root_neutral]; exact EN.
+Qed.
+
+(* ------------------------------------------------------------------ external data: structure invariant *)
+
+Definition put_neutral (e : entry) : bool := match e with LPut _ _ _ _ _ => false | _ => true end.
+
+Lemma puts_pneutral l : forallb put_neutral l = true -> puts l = [].
+Proof.
+  induction l as [|e l IH]; cbn; [reflexivity|]. intros H. apply andb_true_iff in H as [H1 H2].
+  destruct e; cbn in *; try discriminate; auto.
+Qed.
+Lemma puts_of_pneutral c l : forallb put_neutral l = true -> puts_of c l = [].
+Proof.
+  induction l as [|e l IH]; cbn; [reflexivity|]. intros H. apply andb_true_iff in H as [H1 H2].
+  destruct e; cbn in *; try discriminate; auto.
+Qed.
+Lemma put_shapes_pneutral c l : forallb put_neutral l = true -> put_shapes c l = [].
+Proof.
+  induction l as [|e l IH]; cbn; [reflexivity|]. intros H. apply andb_true_iff in H as [H1 H2].
+  destruct e; cbn in *; try discriminate; auto.
+Qed.
+Lemma ext_neutral_put l : forallb ext_neutral l = true -> forallb put_neutral l = true.
+Proof.
+  induction l as [|e l IH]; cbn; [reflexivity|]. intros H. apply andb_true_iff in H as [H1 H2].
+  rewrite IH by assumption. destruct e; cbn in *; try discriminate; reflexivity.
+Qed.
+
+Lemma puts_of_in cid l d : In d (puts_of cid l) <-> In (cid, d) (puts l).
+Proof.
+  induction l as [|e l IH]; cbn; [tauto|]. rewrite !in_app_iff, IH.
+  destruct e; cbn; try tauto. destruct (seqb cid (fdk node dk)) eqn:E; sb; cbn.
+  - split; (intros [H|H]; [|right; exact H]); left; cbn in *; destruct H as [H|[]]; left; congruence.
+  - split; (intros [H|H]; [|right; exact H]); cbn in H; [tauto|].
+    destruct H as [H|[]]. inversion H; subst. rewrite seqb_refl in E. discriminate.
+Qed.
+
+Lemma put_shapes_nil cid l : (forall d, ~ In (cid, d) (puts l)) -> put_shapes cid l = [] /\ puts_of cid l = [].
+Proof.
+  induction l as [|e l IH]; [cbn; tauto|]. intros H.
+  change (e :: l) with ([e] ++ l) in *. rewrite put_shapes_app, puts_of_app.
+  assert (H' : forall d, ~ In (cid, d) (puts l)) by (intros d I; apply (H d); rewrite puts_app; apply in_or_app; right; exact I).
+  destruct (IH H') as [-> ->]. rewrite !app_nil_r. destruct e; cbn; try tauto.
+  destruct (seqb cid (fdk node dk)) eqn:E; sb; [|tauto].
+  exfalso. apply (H consumed). rewrite puts_app. apply in_or_app. left. cbn. left. reflexivity.
+Qed.
+
+Lemma zsum_app l x : zsum (l ++ [x]) = (zsum l + x)%Z.
+Proof. induction l as [|y l IH]; cbn; [lia|]. unfold zsum in IH. rewrite IH. lia. Qed.
+
+Arguments puts : simpl never.
+Arguments puts_of : simpl never.
+Arguments put_shapes : simpl never.
+Arguments new_arrays : simpl never.
+
+Definition InvS (st : state) : Prop :=
+  (forall cid d, In (cid, d) (puts (s_log st)) -> lookup (sd_sres d) (s_sres_nodes st) = Some cid)
+  /\ (forall cid c, lookup cid (s_cons st) = Some c ->
+        cid = fdk (c_node c) (c_dk c) /\ c_consumed c = puts_of cid (s_log st)
+        /\ c_rows c = zsum (map width (puts_of cid (s_log st)))
+        /\ (put_shapes cid (s_log st) = [] \/ last (put_shapes cid (s_log st)) 0%Z = (c_rows c * c_mult c)%Z))
+  /\ (forall k cid, lookup k (s_sres_nodes st) = Some cid -> lookup cid (s_cons st) <> None)
+  /\ new_arrays (s_log st) = map fst (s_cons st)
+  /\ (forall cid, lookup cid (s_cons st) <> None -> lookup cid (s_sres_nodes st) = Some cid)
+  /\ NoDup (map fst (s_cons st)).
+
+Lemma InvS_same_ext st st' : InvS st -> same_ext st st' ->
+  InvS st' /\ puts (s_log st') = puts (s_log st).
+Proof.
+  intros (S4 & S5 & S6 & S7 & S8 & S9) (E1 & E2 & E3 & (ext & EL & EN)).
+  assert (PN := ext_neutral_put _ EN).
+  assert (P1 : puts (s_log st') = puts (s_log st)) by (rewrite EL, puts_app, (puts_pneutral _ PN), app_nil_r; reflexivity).
+  assert (P2 : forall c, puts_of c (s_log st') = puts_of c (s_log st))
+    by (intros c; rewrite EL, puts_of_app, (puts_of_pneutral _ _ PN), app_nil_r; reflexivity).
+  assert (P3 : forall c, put_shapes c (s_log st') = put_shapes c (s_log st))
+    by (intros c; rewrite EL, put_shapes_app, (put_shapes_pneutral _ _ PN), app_nil_r; reflexivity).
+  split; [|exact P1]. unfold InvS. rewrite E2, E3, P1. repeat split; auto.
+  - apply S5 in H. tauto.
+  - rewrite P2. apply S5 in H. tauto.
+  - rewrite P2. apply S5 in H. tauto.
+  - rewrite P3. apply S5 in H. tauto.
+  - rewrite EL, new_arrays_app, (new_arrays_neutral _ EN), app_nil_r. exact S7.
+Qed.
+
+Lemma get_sres_node_err st s u st1 e : get_sres_node st s u = (st1, inl e) -> same_ext st st1.
+Proof.
+  unfold get_sres_node.
+  destruct (lookup s (s_sres_nodes st)); [discriminate|].
+  destruct (lookup s (s_srcache st)) as [x|]; [|intros [= <- <-]; apply same_ext_refl].
+  destruct (seqb u ""); [intros [= <- <-]; apply same_ext_refl|].
+  destruct (lookup u (s_desc_nodes st)) as [node|]; [|intros [= <- <-]; apply same_ext_refl].
+  destruct (lookup (fdk node (sr_dk x)) (s_sres_nodes st)) as [cid|].
+  - destruct (lookup cid (s_cons st)) as [c|]; [|intros [= <- <-]; apply same_ext_refl].
+    destruct (negb _); [|discriminate]. intros [= <- <-]. repeat split; ext_tac.
+  - destruct (lookup (sr_dk x) _); [discriminate|]. intros [= <- <-]. apply same_ext_refl.
+Qed.
+
+Lemma new_arrays_one e : new_arrays [e] = match e with LNewArray node dk _ _ _ _ => [fdk node dk] | _ => [] end.
+Proof. unfold new_arrays. cbn. destruct e; reflexivity. Qed.
+
+Lemma get_sres_node_ok st s u st1 cid :
+  InvS st -> get_sres_node st s u = (st1, inr cid) ->
+  InvS st1 /\ lookup s (s_sres_nodes st1) = Some cid
+  /\ s_ecache st1 = s_ecache st
+  /\ exists ext, s_log st1 = s_log st ++ ext /\ forallb put_neutral ext = true.
+Proof.
+  intros (S4 & S5 & S6 & S7 & S8 & S9). unfold get_sres_node.
+  destruct (lookup s (s_sres_nodes st)) as [cid0|] eqn:L0.
+  { intros [= <- <-]. repeat split; auto; try (apply S5 in H; tauto).
+    exists []. rewrite app_nil_r. split; reflexivity. }
+  destruct (lookup s (s_srcache st)) as [x|]; [|discriminate].
+  destruct (seqb u ""); [discriminate|].
+  destruct (lookup u (s_desc_nodes st)) as [node|]; [|discriminate].
+  set (key := fdk node (sr_dk x)).
+  destruct (lookup key (s_sres_nodes st)) as [cid0|] eqn:LK.
+  - (* additional stream resource for an existing consolidator *)
+    destruct (lookup cid0 (s_cons st)) as [c|] eqn:LC; [|discriminate].
+    destruct (negb _); [discriminate|]. intros [= <- <-].
+    set (c' := mkCons (c_node c) (c_dk c) (c_dataset c) (c_mult c) (c_consumed c) (c_rows c) (S (c_assets c))).
+    assert (M : forall k v, lookup k (s_sres_nodes st) = Some v ->
+                lookup k (dict_set key cid0 (dict_set s cid0 (s_sres_nodes st))) = Some v).
+    { intros k v L. rewrite !lookup_set. destruct (seqb k key) eqn:E1; sb; [congruence|].
+      destruct (seqb k s) eqn:E2; sb; [congruence | exact L]. }
+    assert (PL : forall cid1, puts_of cid1 (s_log st ++ [LUpdSres (c_node c) (c_dk c) s]) = puts_of cid1 (s_log st)).
+    { intros. rewrite puts_of_app. cbn. apply app_nil_r. }
+    assert (PS : forall cid1, put_shapes cid1 (s_log st ++ [LUpdSres (c_node c) (c_dk c) s]) = put_shapes cid1 (s_log st)).
+    { intros. rewrite put_shapes_app. cbn. apply app_nil_r. }
+    unfold register. cbn [s_log s_sres_nodes s_cons s_ecache set_sres_nodes set_cons emit].
+    split; [|split; [|split; [reflexivity|]]].
+    + unfold InvS. cbn [s_log s_sres_nodes s_cons s_ecache set_sres_nodes set_cons emit].
+      split; [|split; [|split; [|split; [|split]]]].
+      * intros cid d. rewrite puts_app. cbn. rewrite app_nil_r. intros I. apply M. apply S4. exact I.
+      * intros cid1 c1. rewrite lookup_set, PL, PS. destruct (seqb cid1 cid0) eqn:E; sb.
+        -- intros [= <-]. cbn. apply S5. exact LC.
+        -- apply S5.
+      * intros k cid1. rewrite !lookup_set. intros L.
+        assert (Q : cid1 = cid0 \/ lookup k (s_sres_nodes st) = Some cid1).
+        { destruct (seqb k key); [left; congruence|]. destruct (seqb k s); [left; congruence | right; exact L]. }
+        destruct (seqb cid1 cid0) eqn:E; [discriminate|]. destruct Q as [->|Q]; [rewrite seqb_refl in E; discriminate|].
+        eapply S6; eauto.
+      * rewrite new_arrays_app, new_arrays_one, app_nil_r. erewrite dict_set_keys_present; eauto.
+      * intros cid1. rewrite lookup_set. intros L. apply M. apply S8.
+        destruct (seqb cid1 cid0) eqn:E; sb; [congruence | exact L].
+      * erewrite dict_set_keys_present; eauto.
+    + rewrite !lookup_set. destruct (seqb s key); [reflexivity|]. rewrite seqb_refl. reflexivity.
+    + eexists. split; [reflexivity | reflexivity].
+  - (* a new consolidator and array node *)
+    destruct (lookup (sr_dk x) _) as [m|]; [|discriminate]. intros [= <- <-].
+    assert (NC : lookup key (s_cons st) = None).
+    { destruct (lookup key (s_cons st)) eqn:L; [|reflexivity].
+      assert (Q : lookup key (s_sres_nodes st) = Some key) by (apply S8; congruence). congruence. }
+    assert (NP : forall d, ~ In (key, d) (puts (s_log st))).
+    { intros d I. apply S4 in I. apply S6 in I. congruence. }
+    destruct (put_shapes_nil _ _ NP) as [NS1 NS2].
+    set (c := mkCons node (sr_dk x) (sr_dataset x) m [] 0 1).
+    set (e := LNewArray node (sr_dk x) 0 1 (sr_dataset x) (s_tags st)).
+    assert (M : forall k v, lookup k (s_sres_nodes st) = Some v ->
+                lookup k (dict_set key key (dict_set s key (s_sres_nodes st))) = Some v).
+    { intros k v L. rewrite !lookup_set. destruct (seqb k key) eqn:E1; sb; [congruence|].
+      destruct (seqb k s) eqn:E2; sb; [congruence | exact L]. }
+    assert (PL : forall cid1, puts_of cid1 (s_log st ++ [e]) = puts_of cid1 (s_log st)).
+    { intros. rewrite puts_of_app. cbn. apply app_nil_r. }
+    assert (PS : forall cid1, put_shapes cid1 (s_log st ++ [e]) = put_shapes cid1 (s_log st)).
+    { intros. rewrite put_shapes_app. cbn. apply app_nil_r. }
+    unfold register. cbn [s_log s_sres_nodes s_cons s_ecache set_sres_nodes set_cons emit].
+    split; [|split; [|split; [reflexivity|]]].
+    + unfold InvS. cbn [s_log s_sres_nodes s_cons s_ecache set_sres_nodes set_cons emit].
+      split; [|split; [|split; [|split; [|split]]]].
+      * intros cid d. rewrite puts_app. cbn. rewrite app_nil_r. intros I. apply M. apply S4. exact I.
+      * intros cid1 c1. rewrite lookup_set, PL, PS. destruct (seqb cid1 key) eqn:E; sb.
+        -- intros [= <-]. cbn. rewrite NS1, NS2. cbn. auto.
+        -- apply S5.
+      * intros k cid1. rewrite !lookup_set. intros L.
+        assert (Q : cid1 = key \/ lookup k (s_sres_nodes st) = Some cid1).
+        { destruct (seqb k key); [left; congruence|]. destruct (seqb k s); [left; congruence | right; exact L]. }
+        destruct (seqb cid1 key) eqn:E; [discriminate|]. destruct Q as [->|Q]; [rewrite seqb_refl in E; discriminate|].
+        eapply S6; eauto.
+      * rewrite new_arrays_app, new_arrays_one. subst e. cbn beta iota. rewrite (dict_set_absent _ _ _ NC), map_app, S7. reflexivity.
+      * intros cid1. rewrite lookup_set. destruct (seqb cid1 key) eqn:E; sb.
+        -- intros _. apply lookup_set_eq.
+        -- intros L. apply M. apply S8. exact L.
+      * rewrite (dict_set_absent _ _ _ NC), map_app. apply NoDup_snoc; [exact S9 | apply lookup_none_notin; exact NC].
+    + rewrite !lookup_set. destruct (seqb s key); [reflexivity|]. rewrite seqb_refl. reflexivity.
+    + eexists. split; [reflexivity | reflexivity].
+Qed.
+
+Lemma last_snoc {A} (l : list A) x d : last (l ++ [x]) d = x.
+Proof. induction l as [|y l IH]; [reflexivity|]. cbn. destruct (l ++ [x]) eqn:E; [destruct l; discriminate | exact IH]. Qed.
+
+Lemma puts_one e : puts [e] = match e with LPut node dk d _ _ => [(fdk node dk, d)] | _ => [] end.
+Proof. unfold puts. cbn. destruct e; reflexivity. Qed.
+Lemma puts_of_one cid e :
+  puts_of cid [e] = match e with LPut node dk d _ _ => if seqb cid (fdk node dk) then [d] else [] | _ => [] end.
+Proof. unfold puts_of. cbn. destruct e; try reflexivity. destruct (seqb cid (fdk node dk)); reflexivity. Qed.
+Lemma put_shapes_one cid e :
+  put_shapes cid [e] = match e with LPut node dk _ s _ => if seqb cid (fdk node dk) then [s] else [] | _ => [] end.
+Proof. unfold put_shapes. cbn. destruct e; try reflexivity. destruct (seqb cid (fdk node dk)); reflexivity. Qed.
+
+Lemma write_external_ok st d st' :
+  InvS st -> write_external st d = (st', None) ->
+  InvS st' /\ s_ecache st' = s_ecache st
+  /\ exists cid, puts (s_log st') = puts (s_log st) ++ [(cid, d)].
+Proof.
+  intros I. unfold write_external.
+  destruct (get_sres_node st (sd_sres d) (sd_desc d)) as [st1 [e|cid]] eqn:G; [discriminate|].
+  destruct (get_sres_node_ok _ _ _ _ _ I G) as ((S4 & S5 & S6 & S7 & S8 & S9) & LS & EC & (ext & EL & EN)).
+  destruct (lookup cid (s_cons st1)) as [c|] eqn:LC; [|discriminate]. intros [= <-].
+  destruct (S5 _ _ LC) as (F1 & F2 & F3 & F4).
+  set (c' := consume c d).
+  match goal with |- context[emit ?x _] => set (e := x) end.
+  assert (FE : fdk (c_node c) (c_dk c) = cid) by (symmetry; exact F1).
+  assert (PE : puts [e] = [(cid, d)]) by (subst e; rewrite puts_one, FE; reflexivity).
+  assert (PO : forall cid1, puts_of cid1 [e] = if seqb cid1 cid then [d] else []).
+  { intros. subst e. rewrite puts_of_one, FE. reflexivity. }
+  assert (PS : forall cid1, put_shapes cid1 [e] = if seqb cid1 cid then [(c_rows c' * c_mult c')%Z] else []).
+  { intros. subst e. rewrite put_shapes_one, FE. reflexivity. }
+  cbn [s_log s_sres_nodes s_cons s_ecache set_cons emit].
+  split; [|split; [exact EC|]].
+  - unfold InvS. cbn [s_log s_sres_nodes s_cons s_ecache set_cons emit].
+    split; [|split; [|split; [|split; [|split]]]].
+    + intros cid1 d1. rewrite puts_app, PE, in_app_iff. intros [J|[J|[]]]; [apply S4; exact J|].
+      inversion J; subst. exact LS.
+    + intros cid1 c1. rewrite lookup_set, puts_of_app, put_shapes_app, PO, PS.
+      destruct (seqb cid1 cid) eqn:E; sb.
+      * intros [= <-]. subst c'. cbn. split; [first [exact F1 | reflexivity]|]. split; [rewrite F2; reflexivity|].
+        split; [rewrite map_app; cbn [map]; rewrite zsum_app, F3; reflexivity|]. right. apply last_snoc.
+      * rewrite !app_nil_r. apply S5.
+    + intros k cid1 L. rewrite lookup_set. destruct (seqb cid1 cid); [discriminate | eapply S6; eauto].
+    + rewrite new_arrays_app, new_arrays_one, app_nil_r. erewrite dict_set_keys_present; eauto.
+    + intros cid1. rewrite lookup_set. destruct (seqb cid1 cid) eqn:E; sb; intros L; apply S8; congruence.
+    + erewrite dict_set_keys_present; eauto.
+  - exists cid. rewrite puts_app, PE, EL, puts_app, (puts_pneutral _ EN), app_nil_r. reflexivity.
+Qed.
+
+Lemma write_external_err st d st' e :
+  InvS st -> write_external st d = (st', Some e) -> same_ext st st'.
+Proof.
+  intros I. unfold write_external.
+  destruct (get_sres_node st (sd_sres d) (sd_desc d)) as [st1 [e1|cid]] eqn:G.
+  - intros [= <- <-]. eapply get_sres_node_err; eauto.
+  - destruct (get_sres_node_ok _ _ _ _ _ I G) as ((S4 & S5 & S6 & S7 & S8 & S9) & LS & _).
+    destruct (lookup cid (s_cons st1)) as [c|] eqn:LC; [discriminate|]. apply S6 in LS. congruence.
+Qed.
+
+Local Opaque write_external.
+
+(* ------------------------------------------------------------------ external data: the pool of stream datums *)
+
+Lemma InvS_set_ecache st x : InvS st -> InvS (set_ecache st x).
+Proof. intros H. exact H. Qed.
+
+Lemma dict_remove_nodup {A} k (d : list (string * A)) : NoDup (map fst d) -> NoDup (map fst (dict_remove k d)).
+Proof.
+  induction d as [|[k0 v0] d IH]; cbn; [auto|]. intros ND. inversion ND as [|? ? Hn ND']; subst.
+  destruct (seqb k k0); [exact ND'|]. cbn. constructor; [|auto].
+  intros I. apply Hn. clear - I. induction d as [|[k1 v1] d IH]; cbn in *; [tauto|].
+  destruct (seqb k k1); cbn in *; [right; exact I | destruct I; [left; assumption | right; auto]].
+Qed.
+
+Section Pool.
+  Context {X : Type}.
+  Variable f : sdatum -> list X.
+  Variable good : sdatum -> Prop.
+  Hypothesis merge_good : forall a b m, good a -> good b -> concat2 a b = inr m -> good m.
+  Hypothesis merge_f : forall a b m, good a -> good b -> concat2 a b = inr m -> Permutation (f m) (f a ++ f b).
+
+  Definition FP (ps : list (string * sdatum)) : list X := flat_map f (map snd ps).
+
+  Lemma FP_app a b : FP (a ++ b) = FP a ++ FP b.
+  Proof. unfold FP. rewrite map_app, flat_map_app. reflexivity. Qed.
+
+  Lemma FP_one k d : FP [(k, d)] = f d.
+  Proof. unfold FP. cbn. apply app_nil_r. Qed.
+
+  Lemma FP_cons k v l : FP ((k, v) :: l) = f v ++ FP l.
+  Proof. reflexivity. Qed.
+
+  Lemma FP_remove k c ec : lookup k ec = Some c -> Permutation (FP ec) (f c ++ FP (dict_remove k ec)).
+  Proof.
+    induction ec as [|[k0 v0] ec IH]; cbn [lookup dict_remove]; [discriminate|].
+    destruct (seqb k k0).
+    - intros [= ->]. reflexivity.
+    - intros L. rewrite !FP_cons.
+      rewrite (IH L). rewrite !app_assoc. apply Permutation_app_tail. apply Permutation_app_comm.
+  Qed.
+
+  Definition GP (ps : list (string * sdatum)) : Prop := Forall good (map snd ps).
+
+  Lemma GP_app a b : GP (a ++ b) <-> GP a /\ GP b.
+  Proof. unfold GP. rewrite map_app. apply Forall_app. Qed.
+
+  Lemma GP_remove k ec : GP ec -> GP (dict_remove k ec).
+  Proof.
+    unfold GP. induction ec as [|[k0 v0] ec IH]; cbn; [auto|]. intros H. inversion H; subst.
+    destruct (seqb k k0); [assumption|]. cbn. constructor; auto.
+  Qed.
+
+  Lemma GP_lookup k c ec : GP ec -> lookup k ec = Some c -> good c.
+  Proof.
+    intros G L. apply lookup_in in L. unfold GP in G. rewrite Forall_forall in G. apply G.
+    apply in_map_iff. exists (k, c). auto.
+  Qed.
+
+  (* the pool: everything consumed so far plus everything still cached *)
+  Definition InvE (st : state) (received : list sdatum) : Prop :=
+    NoDup (map fst (s_ecache st))
+    /\ Permutation (FP (puts (s_log st)) ++ FP (s_ecache st)) (flat_map f received)
+    /\ GP (puts (s_log st)) /\ GP (s_ecache st).
+
+  Lemma InvE_same_ext st st' received : InvS st -> InvE st received -> same_ext st st' -> InvE st' received.
+  Proof.
+    intros I (E1 & E2 & E3 & E4) S. destruct (InvS_same_ext _ _ I S) as [_ P].
+    destruct S as (Es & _). unfold InvE. rewrite P, Es. auto.
+  Qed.
+
+  Lemma recv_snoc received d : flat_map f (received ++ [d]) = flat_map f received ++ f d.
+  Proof. rewrite flat_map_app. cbn. rewrite app_nil_r. reflexivity. Qed.
+
+  (* except ValueError: write the cached document, then the new one *)
+  Lemma handler_ok s c d st' :
+    InvS s ->
+    match write_external s c with (s', None) => write_external s' d | bad => bad end = (st', None) ->
+    InvS st' /\ s_ecache st' = s_ecache s
+    /\ exists c1 c2, puts (s_log st') = puts (s_log s) ++ [(c1, c); (c2, d)].
+  Proof.
+    intros I. destruct (write_external s c) as [s1 [e|]] eqn:W1; [discriminate|]. intros W2.
+    destruct (write_external_ok _ _ _ I W1) as (I1 & E1 & (c1 & P1)).
+    destruct (write_external_ok _ _ _ I1 W2) as (I2 & E2 & (c2 & P2)).
+    split; [exact I2|]. split; [congruence|]. exists c1, c2. rewrite P2, P1, <- app_assoc. reflexivity.
+  Qed.
+
+  Lemma h_sdatum_ext bs st d st' received :
+    InvS st -> InvE st received -> good d -> h_sdatum bs st d = (st', None) ->
+    InvS st' /\ InvE st' (received ++ [d]).
+  Proof.
+    intros I (E1 & E2 & E3 & E4) Gd. unfold h_sdatum. destruct (bs <=? 1)%Z.
+    { intros W. destruct (write_external_ok _ _ _ I W) as (I1 & EC & (cid & P)).
+      split; [exact I1|]. unfold InvE. rewrite EC, P, recv_snoc, FP_app, FP_one. repeat split; auto.
+      - rewrite <- E2. rewrite <- !app_assoc. apply Permutation_app_head. apply Permutation_app_comm.
+      - apply GP_app. split; [exact E3|]. unfold GP. cbn. constructor; auto. }
+    destruct (lookup (sd_sres d) (s_ecache st)) as [c|] eqn:L.
+    2:{ intros [= <-]. split; [apply InvS_set_ecache; exact I|].
+        unfold InvE. cbn [s_ecache s_log set_ecache]. rewrite (dict_set_absent _ _ _ L), recv_snoc, FP_app, FP_one.
+        repeat split; auto.
+        - rewrite map_app. cbn. apply NoDup_snoc; [exact E1 | apply lookup_none_notin; exact L].
+        - rewrite app_assoc. apply Permutation_app_tail. exact E2.
+        - apply GP_app. split; [exact E4|]. unfold GP. cbn. constructor; auto. }
+    set (ec1 := dict_remove (sd_sres d) (s_ecache st)).
+    set (st1 := set_ecache st ec1).
+    assert (I1 : InvS st1) by (apply InvS_set_ecache; exact I).
+    assert (Gc : good c) by (eapply GP_lookup; eauto).
+    assert (G1 : GP ec1) by (apply GP_remove; exact E4).
+    assert (N1 : NoDup (map fst ec1)) by (apply dict_remove_nodup; exact E1).
+    assert (L1 : lookup (sd_sres d) ec1 = None) by (subst ec1; rewrite lookup_remove, seqb_refl by exact E1; reflexivity).
+    assert (PR : Permutation (FP (puts (s_log st)) ++ f c ++ FP ec1) (flat_map f received)).
+    { rewrite <- E2. apply Permutation_app_head. symmetry. apply FP_remove. exact L. }
+    (* the except branch, from any state that has the same puts / caches as st1 *)
+    assert (HH : forall s, InvS s -> puts (s_log s) = puts (s_log st) -> s_ecache s = ec1 ->
+                 match write_external s c with (s', None) => write_external s' d | bad => bad end = (st', None) ->
+                 InvS st' /\ InvE st' (received ++ [d])).
+    { intros s Is Ps Es W. destruct (handler_ok _ _ _ _ Is W) as (I2 & EC & (c1 & c2 & P)).
+      split; [exact I2|]. unfold InvE. rewrite EC, Es, P, Ps, recv_snoc, FP_app.
+      change (FP [(c1, c); (c2, d)]) with (f c ++ f d ++ []). rewrite app_nil_r. repeat split; auto.
+      - rewrite <- PR. rewrite <- !app_assoc. apply Permutation_app_head. apply Permutation_app_head.
+        apply Permutation_app_comm.
+      - apply GP_app. split; [exact E3|]. unfold GP. cbn. constructor; [|constructor]; auto. }
+    destruct (concat2 c d) as [e|m] eqn:CC.
+    - apply HH; [exact I1 | reflexivity | reflexivity].
+    - assert (Gm : good m) by exact (merge_good c d m Gc Gd CC).
+      assert (Fm : Permutation (f m) (f c ++ f d)) by exact (merge_f c d m Gc Gd CC).
+      destruct (sd_i1 m - sd_i0 m >=? bs)%Z.
+      + destruct (write_external st1 m) as [s' [e|]] eqn:W.
+        * assert (S := write_external_err _ _ _ _ I1 W).
+          destruct (InvS_same_ext _ _ I1 S) as [Is Ps]. destruct S as (Es & _).
+          destruct e; try discriminate. apply HH; [exact Is | exact Ps | exact Es].
+        * intros [= <-]. destruct (write_external_ok _ _ _ I1 W) as (I2 & EC & (cid & P)).
+          split; [exact I2|]. unfold InvE. rewrite EC, P. cbn [s_ecache s_log set_ecache st1].
+          rewrite recv_snoc, FP_app, FP_one. repeat split; auto.
+          -- rewrite <- PR. rewrite <- !app_assoc. apply Permutation_app_head.
+             rewrite Fm. rewrite <- !app_assoc. apply Permutation_app_head. apply Permutation_app_comm.
+          -- apply GP_app. split; [exact E3|]. unfold GP. cbn. constructor; auto.
+      + intros [= <-]. split; [apply InvS_set_ecache; exact I1|].
+        unfold InvE. cbn [s_ecache s_log set_ecache st1]. rewrite (dict_set_absent _ _ _ L1), recv_snoc, FP_app, FP_one.
+        repeat split; auto.
+        * rewrite map_app. cbn. apply NoDup_snoc; [exact N1 | apply lookup_none_notin; exact L1].
+        * rewrite <- PR, Fm. rewrite <- !app_assoc. apply Permutation_app_head.
+          rewrite !app_assoc. apply Permutation_app_tail. apply Permutation_app_comm.
+        * apply GP_app. split; [exact G1|]. unfold GP. cbn. constructor; auto.
+  Qed.
+End Pool.
